@@ -1,1 +1,121 @@
-From Verif Require Import Model.HandshakeAddr Proofs.C19.
+(* C19 — Backend handshake keeps the player's host first and forwarding data well-formed.
+   Only statements and `exact`; proofs in Proofs/C19.v, C19_json.v, C19_main.v.
+   Model: Model/HandshakeAddr.v (handshake_addr = serverConnection.handshakeAddr, server_address =
+   the address startHandshake writes, first_part s = nth 0 (split_nul s), json_array = encoding/json
+   of the property slice, bungee_parse = reference BungeeCord-side parser). *)
+From Coq Require Import List NArith ZArith Bool Arith.
+From Verif Require Import Base.Hex Base.Text Model.TryList Model.HandshakeAddr
+  Proofs.C19 Proofs.C19_json Proofs.C19_main.
+Import ListNotations.
+Open Scope N_scope.
+
+(* "The server address the proxy sends to a backend starts with the player's virtual host as its
+   first NUL-separated part ... for every client type, Forge marker and custom address hook, unless
+   legacy or BungeeGuard forwarding is used."  The hooks (server HandshakeAddresser ha, proxy
+   BackendHandshakeAddresser ba) are arbitrary user code: the premises say that they themselves keep
+   the first part; everything else is unconstrained (any virtual host string, any connection type,
+   any forwarding inputs, either JSON printer). *)
+Theorem C19_host_first :
+  forall (ha : option (bytes -> bytes)) (ba : option (bytes -> option bytes)),
+  (forall f x, ha = Some f -> nth 0 (split_nul (f x)) [] = nth 0 (split_nul x) []) ->
+  (forall g x y, ba = Some g -> g x = Some y -> nth 0 (split_nul y) [] = nth 0 (split_nul x) []) ->
+  forall pj fw ct c vhost r,
+  used_forwarding ha fw = false ->
+  handshake_addr ha ba pj fw ct c vhost = Some r ->
+  nth 0 (split_nul r) [] = nth 0 (split_nul vhost) [].
+Proof. exact host_first_split_thm. Qed.
+Print Assumptions C19_host_first.
+
+(* the same for the address startHandshake writes: the host is netutil.Host(player.virtualHost), or the
+   backend's own host when that is empty *)
+Theorem C19_server_address_host_first :
+  forall (ha : option (bytes -> bytes)) (ba : option (bytes -> option bytes)),
+  (forall f x, ha = Some f -> first_part (f x) = first_part x) ->
+  (forall g x y, ba = Some g -> g x = Some y -> first_part y = first_part x) ->
+  forall pj fw ct c r,
+  used_forwarding ha fw = false ->
+  server_address ha ba pj fw ct c = Some r ->
+  nth 0 (split_nul r) [] = nth 0 (split_nul (player_vhost c)) [].
+Proof. exact server_address_host_first. Qed.
+Print Assumptions C19_server_address_host_first.
+
+(* what the client typed arrives as A ++ ":port"; for A without colon or bracket (NUL parts and Forge
+   markers allowed) the host handed on is A itself *)
+Theorem C19_client_address_is_host : forall a port,
+  has 58 a = false -> has 91 a = false -> has 93 a = false ->
+  forallb is_digit port = true ->
+  host_str (a ++ 58 :: port) = a.
+Proof. exact host_str_port. Qed.
+Print Assumptions C19_client_address_is_host.
+
+(* "With legacy or BungeeGuard forwarding the address is exactly the backend address, the player's IP,
+   the undashed UUID and a JSON property list (plus the BungeeGuard token property) separated by NULs" *)
+Theorem C19_legacy_address : forall (ba : option (bytes -> option bytes)) fw ct c vhost,
+  used_forwarding None fw = true ->
+  handshake_addr None ba spec_props_json fw ct c vhost
+  = Some (srv_addr c ++ [0] ++ host_str (remote c) ++ [0] ++ undashed (uuid c) ++ [0]
+          ++ json_array ((match props c with Some l => l | None => [] end) ++ appended fw ct c)).
+Proof. exact legacy_address_thm. Qed.
+Print Assumptions C19_legacy_address.
+
+(* Go's string escaping leaves no raw NUL in part four: always exactly four parts, whatever bytes the
+   property strings contain *)
+Theorem C19_four_parts : forall fw ct c,
+  nz (srv_addr c) = true -> nz (host_str (remote c)) = true ->
+  split_nul (forwarding_address (spec_props_json fw ct c) c)
+  = [srv_addr c; host_str (remote c); undashed (uuid c); json_array (props_list fw ct c)].
+Proof. exact four_parts_thm. Qed.
+Print Assumptions C19_four_parts.
+
+(* "parseable by a BungeeCord backend": the reference parser (exactly four parts; a JSON array of
+   {name,value,signature?} objects) returns the four values that went in.  Premise on the property
+   strings: json_transparent = Go's encoder neither substitutes U+FFFD (invalid UTF-8) nor escapes
+   U+2028/9 in them; quotes, backslashes, control characters (NUL), <>& and valid non-ASCII are covered. *)
+Theorem C19_legacy_parse : forall fw ct c,
+  nz (srv_addr c) = true -> nz (host_str (remote c)) = true ->
+  forallb property_transparent (props_list fw ct c) = true ->
+  bungee_parse (forwarding_address (spec_props_json fw ct c) c)
+  = Some (srv_addr c, host_str (remote c), undashed (uuid c), props_list fw ct c).
+Proof. exact legacy_parse_thm. Qed.
+Print Assumptions C19_legacy_parse.
+
+(* the code (impl_props_json) and the demanded printer agree except on the recorded finding C19-1 *)
+Theorem C19_impl_eq_spec_off_trigger : forall ha ba fw ct c vhost,
+  trigger_null fw ct c = false ->
+  handshake_addr ha ba impl_props_json fw ct c vhost = handshake_addr ha ba spec_props_json fw ct c vhost.
+Proof. exact impl_spec_address_thm. Qed.
+Print Assumptions C19_impl_eq_spec_off_trigger.
+
+(* finding C19-1: legacy forwarding, nil property slice (offline-mode profile), nothing appended:
+   part four is the literal null, which the reference parser rejects; the demanded printer gives [] *)
+Theorem C19_null_refuted :
+  trigger_null FwLegacy CtOther null_witness = true /\
+  handshake_addr None None impl_props_json FwLegacy CtOther null_witness [97]
+    = Some (forwarding_address json_null null_witness) /\
+  bungee_parse (forwarding_address json_null null_witness) = None /\
+  bungee_parse (forwarding_address (spec_props_json FwLegacy CtOther null_witness) null_witness)
+    = Some ([49;48;46;48;46;48;46;55;58;49], [49;46;50;46;51;46;52],
+            undashed [0;1;2;3;4;5;6;7;8;9;10;11;12;13;14;15], []).
+Proof. exact null_refuted. Qed.
+Print Assumptions C19_null_refuted.
+
+(* premises are satisfiable *)
+Example C19_host_first_nonvacuous :
+  let h := [112;108;97;121] in
+  let v := h ++ [0;70;77;76;51;0] in
+  let ha := Some (fun y : bytes => y ++ [0; 120]) in
+  let ba := Some (fun y : bytes => Some (y ++ [0; 121])) in
+  let c := mkCtx [98;58;49] [49;46;50;46;51;46;52;58;53] [] None (v ++ [58;50;53]) in
+  used_forwarding ha FwLegacy = false /\
+  server_address ha ba spec_props_json FwLegacy CtModernForge c = Some (h ++ [0;70;77;76;51;0]) /\
+  player_vhost c = v.
+Proof. exact host_first_nonvacuous. Qed.
+
+Example C19_legacy_parse_nonvacuous :
+  let p := mkProp [116;101;120;116;117;114;101;115] [101;121;74;48;34;92;60;10] [97;98;61] in
+  let c := mkCtx [49;48;46;48;46;48;46;55;58;49] [91;58;58;49;93;58;52] (repeat 171 16) (Some [p])
+                 [104;0;70;77;76;50;0;58;49] in
+  nz (srv_addr c) = true /\ nz (host_str (remote c)) = true /\
+  forallb property_transparent (props_list (FwBungeeGuard [115;0;34]) CtModernForge c) = true /\
+  length (props_list (FwBungeeGuard [115;0;34]) CtModernForge c) = 3%nat.
+Proof. exact legacy_parse_nonvacuous. Qed.
